@@ -23,7 +23,9 @@ Cmd(sub, what, acct, flags, sigtext, chan, inp) ==
 \* the executor input of a command: argv/env rendered by the spec, the input on its channel
 CliIn(cmd) ==
   LET base == [cmd |-> cmd, argv |-> Argv(cmd), env |-> EnvOf(cmd), timeout_ms |-> 60000]
-      spec == IF "doc" \in DOMAIN cmd.inp THEN [doc |-> cmd.inp.doc]
+      spec == IF "rl" \in DOMAIN cmd.inp
+                THEN [cat |-> <<BytesToHex(cmd.inp.rl.pre), [rep |-> cmd.inp.rl.rep, pat |-> BytesToHex(cmd.inp.rl.pat)], BytesToHex(cmd.inp.rl.tail)>>]
+              ELSE IF "doc" \in DOMAIN cmd.inp THEN [doc |-> cmd.inp.doc]
               ELSE IF "hex" \in DOMAIN cmd.inp THEN [hex |-> cmd.inp.hex] ELSE [hex |-> ""]
   IN  IF cmd.chan = "file" THEN base @@ [files |-> (FileName(cmd) :> spec)]
       ELSE IF cmd.chan = "fifo" THEN base @@ [fifos |-> (FileName(cmd) :> spec)]
